@@ -330,7 +330,7 @@ META = {
     "technique": "typestate (Packed) over the CFGs of reserve/resize with branch facts; guard dominance; must-pass-through inside the migration loops; sibling agreement of the three packing loops after normalisation; lexicographic key sequence derived from the comparator (any of four comparator idioms)",
     "level": "Static all-paths decision of the skeleton that excludes overlap: reservations are appended at `reserved` only when packed (empty pool, or after a resize whose every exit either compacted or had nothing to "
              "compact), hole placements are bounded by the pool size and found by an ordered scan that advances only to aligned upper ends, both migrations re-point every visited reservation and copy every closed block "
-             "(including the last) before the old buffer is deleted, the sizing and packing loops are the same algorithm so the new buffer is exactly large enough, and the set is ordered by offset. "
+             "(including the last) before the old buffer is deleted, the sizing and packing loops are the same algorithm so the new buffer is exactly large enough, inside a block the running end of the sweep only grows, and the set is ordered by offset. "
              "The suite never fragments a pool; the rule sees the fallback path regardless.",
     "note": "Does not decide the compaction arithmetic for all sizes/alignments, nor that bytes read back equal bytes written (value-level). An outside dynamic probe of the unchanged tree (DESIGN 10.9, probes/P03) shows that this arithmetic IS wrong when live slices outlive their parent or after setAlignment (packed blocks need more cells than `reserved` counts: heap overflow); no rule here reports that.",
 }
